@@ -887,7 +887,7 @@ def scrypt(secret, salt=b"", rounds=16, block_size=8, parallelism=1, ident=None)
 # ---------------------------------------------------------------------------
 # scram (RFC 5802 SaltedPassword for several digests in one string)
 # ---------------------------------------------------------------------------
-_IANA = {"md5": "md5", "sha-1": "sha1", "sha-224": "sha224", "sha-256": "sha256", "sha-384": "sha384",
+_IANA = {"md4": "md4", "md5": "md5", "sha-1": "sha1", "sha-224": "sha224", "sha-256": "sha256", "sha-384": "sha384",
          "sha-512": "sha512"}
 
 
@@ -905,7 +905,7 @@ def scram(secret, salt=b"", rounds=1, algs=None):
     parts = []
     for alg in names:
         hname = _IANA[alg]
-        size = hashlib.new(hname).digest_size
+        size = _kdf.digest_info(hname)[1]
         parts.append("%s=%s" % (alg, _ab64(_kdf.pbkdf2_ref(hname, pw, salt, rounds, size))))
     return "$scram$%d$%s$%s" % (rounds, _ab64(salt), ",".join(parts))
 
@@ -1195,7 +1195,7 @@ def _scrypt_crypt(secret, salt=b"", rounds=16, block_size=8, parallelism=1, iden
 
 _third("scrypt", "libxcrypt", _scrypt_crypt)
 _reg("scram", scram, secret="saslprep", salt=_S_RAW(0, 64), rounds=_R_LIN(1, 4294967295),
-     other={"algs": ["sha-1,sha-256,sha-512", "sha-1", "sha-1,md5", "sha-1,sha-224,sha-384"]}, cost_ms=0.5)
+     other={"algs": ["sha-1,sha-256,sha-512", "sha-1", "sha-1,md5", "sha-1,sha-224,sha-384", "md4,sha-1"]}, cost_ms=0.5)
 _reg("django_salted_md5", django_salted_md5, salt=dict(type="chars", alphabet=DJANGO_SALT, min=0, max=16), cost_ms=0.02)
 _third("django_salted_md5", "django", _dj_md5)
 _reg("django_salted_sha1", django_salted_sha1, salt=dict(type="chars", alphabet=DJANGO_SALT, min=0, max=16),
